@@ -2,14 +2,17 @@ _T = ["u8", "i8", "u16", "i16", "u32", "i32", "u64", "i64", "f32", "f64"]
 
 CHECK = dict(
     # one translation unit per element type and part so that they compile in parallel:
-    #   c04_vec.cpp            driver, triple registry, reporting back end
+    #   c04_vec.cpp            driver (one forked child per part), triple registry, reporting back end
     #   c04_vec_s_<T>.cpp      families over one element type        (c04_vec_same.h)
     #   c04_vec_ma/mb_<T>.cpp  families over pairs (T,U), two halves (c04_vec_mixed.h)
+    # shared machinery: c04_vec_common.h
     harness=(["c04_vec_mb_%s.cpp" % t for t in _T] + ["c04_vec_ma_%s.cpp" % t for t in _T] +
              ["c04_vec_s_%s.cpp" % t for t in _T] + ["c04_vec.cpp"]),
     sources=[],  # header-only: rkcommon/math/vec.h, rkmath.h, constants.h
     # compile-time only: no variable-location debug info, ASan checks through calls instead of
-    # inline sequences (same checks, ~2x faster to compile the ~10^4 instantiations)
+    # inline sequences (same checks, ~2x faster to compile the ~1.4*10^4 instantiated triples).
+    # The driver loops of the mixed-type families carry no_sanitize_address (they only move values
+    # through data members); every rkcommon template they call stays ASan+UBSan instrumented.
     harness_flags=["-fno-var-tracking", "--param", "asan-instrumentation-with-call-threshold=0"],
     variants=[dict(name="asan", flavour="asan")],
     floor={"asan:triples_instantiated": 10000, "asan:families_driven": 60},
